@@ -181,9 +181,9 @@ class StoreSim(core.Engine):
     # -- op generation -----------------------------------------------------
     def _gen_op(self, rng: random.Random, n: int, lf: int, ref: list) -> dict:
         kinds = ['splice', 'splice', 'splice', 'insert_after', 'insert_before', 'replace',
-                 'remove', 'remove', 'update', 'update', 'permute', 'bulk', 'refuse']
+                 'remove', 'remove', 'update', 'update', 'permute', 'resplice', 'bulk', 'refuse']
         kind = rng.choice(kinds)
-        if n == 0 and kind in ('replace', 'remove', 'update', 'permute', 'refuse'):
+        if n == 0 and kind in ('replace', 'remove', 'update', 'permute', 'resplice', 'refuse'):
             kind = 'insert_after'
 
         def new(k=None):
@@ -206,7 +206,20 @@ class StoreSim(core.Engine):
                 op['edit_detached'] = [rng.choice(TEXTS) for _ in op['new']]
             return op
         if kind == 'replace':
+            if rng.random() < 0.2:
+                # a token replaced by itself: what a list does for xs[i] = xs[i]
+                return {'op': 'replace', 'ref': rng.randrange(n), 'new': [], 'self': True}
             return {'op': 'replace', 'ref': rng.randrange(n), 'new': new(1)}
+        if kind == 'resplice':
+            # the range is replaced by a mix of some of its own tokens (any order) and fresh ones
+            a, b = span()
+            b = min(b, a + 12)
+            keep = [i for i in range(a, b + 1) if rng.random() < 0.6]
+            rng.shuffle(keep)
+            mix = [('k', i) for i in keep] + [('n', t) for t in new(rng.choice([0, 1, 2]))]
+            if rng.random() < 0.5:
+                rng.shuffle(mix)
+            return {'op': 'resplice', 'ref': a, 'del_end': b, 'mix': [list(m) for m in mix]}
         if kind == 'remove':
             a, b = span()
             return {'op': 'remove', 'ref': a, 'del_end': b if rng.random() < 0.8 else None}
@@ -281,11 +294,28 @@ class StoreSim(core.Engine):
                 return [], (at, at + len(new)), None
             if kind == 'replace':
                 a = op['ref']
-                new = mk(op['new'][0])
                 old = tok(a)
+                if op.get('self'):
+                    stats['replace_by_itself'] += 1
+                    store.replace(old, old)
+                    return [], (a, a + 1), None
+                new = mk(op['new'][0])
                 store.replace(old, new)
                 ref[a] = new
                 return [old], (a, a + 1), None
+            if kind == 'resplice':
+                a, b = op['ref'], op['del_end']
+                if not (0 <= a <= b < n):
+                    return [], None, 'skip'
+                kept = [m[1] for m in op['mix'] if m[0] == 'k']
+                if len(set(kept)) != len(kept) or any(not (a <= i <= b) for i in kept):
+                    return [], None, 'skip'
+                new = [ref[m[1]] if m[0] == 'k' else mk(m[1]) for m in op['mix']]
+                removed = [ref[i] for i in range(a, b + 1) if i not in set(kept)]
+                stats['resplice_mixed_tokens'] += 1
+                store.splice(new, ref[a], ref[b])
+                ref[a:b + 1] = new
+                return removed, (a, a + len(new)), None
             if kind == 'remove':
                 a, b = op['ref'], op['del_end']
                 ra, rb = tok(a), tok(b)
